@@ -32,3 +32,12 @@ Definition c10_spec_cmp (o : c10_cmpop) (a b : N) : bool :=
 
 Definition c10_spec_shift (n : nat) (left : bool) (a s : N) : N :=
   if left then (a * 2 ^ s) mod 2 ^ c10_spec_width n else a / 2 ^ s.
+
+(* reading a hex string (what print produces) back as a number *)
+From Coq Require Import Ascii.
+Definition c10_hexdigit_val (c : ascii) : N :=
+  match c with
+  | "0" => 0 | "1" => 1 | "2" => 2 | "3" => 3 | "4" => 4 | "5" => 5 | "6" => 6 | "7" => 7
+  | "8" => 8 | "9" => 9 | "a" => 10 | "b" => 11 | "c" => 12 | "d" => 13 | "e" => 14 | "f" => 15 | _ => 0
+  end%char.
+Definition c10_hexval (l : list ascii) : N := fold_left (fun v c => v * 16 + c10_hexdigit_val c) l 0.
